@@ -90,7 +90,10 @@ func (c *Ctx) actualFor(e recEdge, m measure) ast.Expr {
 	info := c.info(e.caller)
 	var base ast.Expr
 	if m.param == -1 {
-		if sel, ok := core.Unparen(e.call.Fun).(*ast.SelectorExpr); ok {
+		if recv := c.P.MethodValueRecv(e.caller, e.call, e.callee.Obj); recv != nil {
+			// called through a method value (a table of steps): the receiver was bound when the value was taken
+			base = recv
+		} else if sel, ok := core.Unparen(e.call.Fun).(*ast.SelectorExpr); ok {
 			base = sel.X
 		}
 	} else if m.param < len(e.call.Args) {
